@@ -199,6 +199,77 @@ CHECKS = {
         'leaf kinds and sizes from a fixed catalogue; quick runs 2 of 8 '
         'mode histories per program.',
         '3/C10'),
+    'C02': (
+        'explicit-state exploration of rank interleavings of the real code '
+        'in a simulated world (exhaustive for small worlds, deviation-'
+        'bounded beyond) + bounded-exhaustive configuration sweep under '
+        'fixed schedules, against a reference K-FAC on the union of batches',
+        'The configuration box (world size x every gradient-worker count x '
+        'colocation x cost heuristic x bucket capacity x symmetry-aware x 3 '
+        'methods x 2 models x dtype variants) is executed for 2-3 steps '
+        'under 3-4 fixed schedules incl. lazy delivery with NaN poisoning; '
+        'gradients are compared across ranks and with RefKFAC on the union '
+        'of the per-rank batches (and with single-process K-FAC using '
+        'accumulation). Small configurations are explored over ALL rank '
+        'interleavings (states merged by per-rank observation digests; '
+        'world 2 two layers two iterations, world 4 HYBRID one layer, also '
+        'with free completion times) and a 3-layer 3-iteration world-4 '
+        'program over all schedules with <=1 (quick) / <=2 (thorough) '
+        'deviations.',
+        'simdist stands in for the backend (per-group FIFO matching; '
+        'validated against gloo, DESIGN 2.7); values from a fixed lattice; '
+        'exhaustive interleavings only for worlds <= 4 and small programs.',
+        '3/C02'),
+    'C03': (
+        'explicit-state exploration: operation-history BFS per '
+        'configuration with states merged by digest, each history executed '
+        'in a simulated world whose environment decides matching / '
+        'membership / stall; exhaustive and deviation-bounded interleavings '
+        'of small histories',
+        'For worlds 2 and 4, all gradient-worker counts, interval pairs '
+        '(constant and callable), accumulation, hook/no-hook, bucketed/'
+        'unbucketed, symmetric/dense, 3 methods, dtype variants: every '
+        'history up to depth 3 (quick) / 4 (thorough) over {train, eval, '
+        'state_dict on all ranks / rank 0, memory_usage on all ranks / one '
+        'rank, load_state_dict with and without inverse computation} is run '
+        'under 2-3 schedules; simdist checks that all members of a group '
+        'issue the same sequence of collectives (kind, shape, dtype, root), '
+        'that nobody communicates on a foreign group, that new_group '
+        'sequences are identical, that no rank stalls and nothing stays '
+        'incomplete or buffered.',
+        'simdist matching model (per-group FIFO); quick covers 1/23 of the '
+        'configuration box per seed; GPT-NeoX paths under C11/C12/C18.',
+        '3/C03'),
+    'C09': (
+        'crash-point enumeration: every step boundary of every run x '
+        'checkpoint flags, on the real code (single process and simulated '
+        'worlds), against RefKFAC and against the uninterrupted real run',
+        'For every configuration and EVERY boundary c in 0..T, the state is '
+        'saved on all ranks, loaded into a fresh model + fresh '
+        'preconditioner built with different constant hyper-parameters, and '
+        'training continues; restored steps / scalars / factors are '
+        'compared bit-exactly on every rank; the continuation is compared '
+        'with the reference machine and, where the property demands it, '
+        'with the uninterrupted real run (bit-identical on the unchanged '
+        'tree).',
+        'T = 4 (quick) / 6 (thorough); combinations the documentation '
+        'excludes are not generated; simdist stands in for the backend.',
+        '3/C09'),
+    'C13': (
+        'bounded-exhaustive configuration sweep in simulated worlds with '
+        'the complete collective trace and an independent tensor walk as '
+        'observations',
+        'For every configuration (world, gradient-worker count, interval '
+        'pairs, bucketing, symmetry, method, colocation, hook/no-hook, '
+        'model) and every step, the per-rank collective trace (kind, group '
+        'members, element count) must be exactly what the KAISA strategy '
+        'prescribes, memory_usage() must equal the bytes of the tensors '
+        'found by an independent walk over the layer objects, and '
+        'second-order data must be held iff the rank is a gradient worker '
+        'of the layer (a column of the reference grid).',
+        'histories without load_state_dict; worlds <= 4 quick / <= 8 '
+        'thorough.',
+        '3/C13'),
 }
 
 NOT_YET = 'check not built yet (work in progress, see DESIGN.md section 8)'
